@@ -12,14 +12,17 @@ From SyModel Require Import Temp.
 From SyProofs Require Import Temp_proofs.
 Import ListNotations.
 
-(* Whatever the interleaving, each destination holds exactly its own source's data, no working file remains, and
+(* Whatever the interleaving of transfers AND --delete tasks, each transferred destination holds exactly its own source's data,
+   each stale entry planned for deletion is gone, no working file remains, and
    every path that is neither a planned destination nor a working file of this run -- a user's own files -- is as
    it was.  Hypotheses: destinations are distinct paths (one action per path) and no planned destination is
-   literally named <another block-delta destination>.sy.tmp; the third clause speaks about every path that is not
+   literally named <another block-delta destination>.sy.tmp (planned deletions are task destinations too: since
+   `fix: a leftover working file that an update is about to reuse is not planned for deletion` the engine never plans one); the third clause speaks about every path that is not
    literally <block-delta destination>.sy.tmp either. *)
 Theorem C05_every_interleaving_partial : forall tasks l s,
   NoDup (map tk_dest tasks) -> no_literal_clash tasks -> is_interleaving l (map (prog temp_path) tasks) ->
-  (forall t, In t tasks -> texec l s (tk_dest t) = Some (TNew (tk_id t))) /\
+  (forall t, In t tasks -> tk_kind t <> KDelete -> texec l s (tk_dest t) = Some (TNew (tk_id t))) /\
+  (forall t, In t tasks -> tk_kind t = KDelete -> texec l s (tk_dest t) = None) /\
   (forall t, In t tasks -> tk_kind t = KDelta -> texec l s (temp_path (tk_dest t)) = None) /\
   (forall q, (forall t, In t tasks -> q <> tk_dest t /\ (tk_kind t = KDelta -> q <> temp_path (tk_dest t))) -> texec l s q = s q).
 Proof. intros tasks l s Hnd Hc Hl. apply final_state; [apply append_naming_good; assumption | exact Hl]. Qed.
